@@ -15,7 +15,7 @@ import (
 func init() {
 	register(&Rule{
 		Name: "MAPKEYQUOTE",
-		Doc: "in p2j.unmarshalMap the condition that guards the emission of the `\"` around a map key is true for every legal proto3 map-key kind other than string (int32/64, uint32/64, sint32/64, fixed32/64, sfixed32/64, bool) — evaluated symbolically for each kind, following predicate methods such as Type.IsInt — " +
+		Doc: "in p2j.unmarshalMap every legal non-string proto3 map-key kind is quoted EXACTLY ONCE under every combination of the options involved: the condition that guards the emission of the `\"` around a map key, XOR the scalar encoder clause of that kind appending a quote itself (unmarshalSingular, e.g. INT64 under Int642String), is true for every kind (int32/64, uint32/64, sint32/64, fixed32/64, sfixed32/64, bool) — evaluated symbolically for each kind, following predicate methods such as Type.IsInt — " +
 			"an unquoted key is not valid JSON",
 		Configs: "NP",
 		Floor:   map[string]int{"N": 11, "P": 11},
@@ -118,15 +118,119 @@ func runMapKeyQuote(rc *RuleCtx) {
 	if subject == "" {
 		broken("MAPKEYQUOTE: cannot identify the key-kind expression in condition %s", first)
 	}
-	for _, n := range names {
-		pe := &predEval{w: w, subject: subject, val: pc[n]}
-		v, err := pe.evalBool(p, conds[0].Cond, locals)
-		rc.Examined++
-		if err != nil {
-			broken("MAPKEYQUOTE: cannot evaluate quote condition for %s: %v", n, err)
+	// boolean option selectors the condition depends on (free variables)
+	var opts []string
+	var collect func(e ast.Expr, d int)
+	collect = func(e ast.Expr, d int) {
+		if d > 6 {
+			return
 		}
-		rc.add(nil, "(*conv/p2j.BinaryConv).unmarshalMap", "quote("+n+")", conds[0].Pos(), map[bool]string{true: "discharged", false: "violated"}[v],
-			map[bool]string{true: "key kind " + n + " is quoted", false: "map keys of kind " + n + " are emitted without quotes (condition `" + first + "` is false): invalid JSON"}[v], true)
+		ast.Inspect(e, func(n ast.Node) bool {
+			switch x := n.(type) {
+			case *ast.SelectorExpr:
+				if t := p.TypesInfo.TypeOf(x); t != nil && t.String() == "bool" && strings.Contains(types.ExprString(x), "opts.") {
+					k := types.ExprString(x)
+					dup := false
+					for _, o := range opts {
+						if o == k {
+							dup = true
+						}
+					}
+					if !dup {
+						opts = append(opts, k)
+					}
+				}
+			case *ast.Ident:
+				if def, ok := locals[x.Name]; ok {
+					collect(def, d+1)
+				}
+			}
+			return true
+		})
+	}
+	collect(conds[0].Cond, 0)
+	// what the scalar encoder does for each kind: does its clause append a quote itself, and under which option?
+	type selfQuote struct {
+		always bool
+		opt    string // quoted iff this option selector is true
+	}
+	scalar := map[string]selfQuote{}
+	sp, sfd := w.findDecl("(*conv/p2j.BinaryConv).unmarshalSingular")
+	for _, ks := range w.kindSwitches(5) {
+		if ks.decl != sfd {
+			continue
+		}
+		for _, cl := range ks.clauses {
+			var sq selfQuote
+			for _, st := range cl.body {
+				if is, ok := st.(*ast.IfStmt); ok {
+					inThen := false
+					for _, b := range is.Body.List {
+						if isQuoteAppend(sp, b) {
+							inThen = true
+						}
+					}
+					if inThen {
+						sq.opt = types.ExprString(ast.Unparen(is.Cond))
+						continue
+					}
+				}
+				if isQuoteAppend(sp, st) {
+					sq.always = true
+				}
+			}
+			for _, l := range cl.labels {
+				scalar[l.name] = sq
+			}
+		}
+	}
+	if len(scalar) < 10 {
+		broken("MAPKEYQUOTE: kind switch of p2j.unmarshalSingular not found (%d labels)", len(scalar))
+	}
+	for _, sq := range scalar {
+		if sq.opt != "" {
+			dup := false
+			for _, o := range opts {
+				if o == sq.opt {
+					dup = true
+				}
+			}
+			if !dup {
+				opts = append(opts, sq.opt)
+			}
+		}
+	}
+	sort.Strings(opts)
+	rc.Notes["options"] = strings.Join(opts, ",")
+	for _, n := range names {
+		for mask := 0; mask < 1<<len(opts); mask++ {
+			free := map[string]bool{}
+			var desc []string
+			for i, o := range opts {
+				free[o] = mask&(1<<i) != 0
+				desc = append(desc, fmt.Sprintf("%s=%v", o[strings.LastIndex(o, ".")+1:], free[o]))
+			}
+			pe := &predEval{w: w, subject: subject, val: pc[n], free: free}
+			wrap, err := pe.evalBool(p, conds[0].Cond, locals)
+			rc.Examined++
+			if err != nil {
+				broken("MAPKEYQUOTE: cannot evaluate quote condition for %s: %v", n, err)
+			}
+			sq := scalar[n]
+			self := sq.always || (sq.opt != "" && free[sq.opt])
+			good := wrap != self
+			anchor := "quote(" + n + ")"
+			if len(desc) > 0 {
+				anchor += "[" + strings.Join(desc, ",") + "]"
+			}
+			detail := "key kind " + n + " is quoted exactly once"
+			if !wrap && !self {
+				detail = "map keys of kind " + n + " are emitted without quotes (condition `" + first + "` is false and the scalar encoder does not quote): invalid JSON"
+			} else if wrap && self {
+				detail = "map keys of kind " + n + " are quoted twice: by the map walker (condition `" + first + "`) and by the scalar encoder's own clause: `\"\"5\"\"` is invalid JSON"
+			}
+			rc.add(nil, "(*conv/p2j.BinaryConv).unmarshalMap", anchor, conds[0].Pos(), map[bool]string{true: "discharged", false: "violated"}[good], detail, true)
+		}
 	}
 }
 
